@@ -260,6 +260,24 @@ func RunConfChange(tier string, deadline time.Time) *Report {
 			trk := tracker.MakeProgressTracker(4, 0)
 			trk.Config, trk.Progress = cfg, prs
 			cs := trk.ConfState()
+			{
+				// the ConfState handed out is a value: later changes of the tracker must not reach it
+				before := proto.Clone(cs).(*pb.ConfState)
+				probe := tracker.MakeProgressTracker(4, 0)
+				probe.Config, probe.Progress = cfg.Clone(), prs
+				pcs := probe.ConfState()
+				was := proto.Clone(pcs).(*pb.ConfState)
+				probe.Config.AutoLeave = !probe.Config.AutoLeave
+				probe.Config.Voters[0][99] = struct{}{}
+				if probe.Config.Learners == nil {
+					probe.Config.Learners = map[uint64]struct{}{}
+				}
+				probe.Config.Learners[98] = struct{}{}
+				if !proto.Equal(pcs, was) {
+					fail("%s: the ConfState of {%s} changed when the tracker was modified afterwards: %v, was %v", desc(), cfgString(cfg, prs), pcs, was)
+				}
+				_ = before
+			}
 			rcfg, rprs, rerr2 := confchange.Restore(confchange.Changer{Tracker: tracker.MakeProgressTracker(4, 0), LastIndex: 5}, cs)
 			if rerr2 != nil {
 				fail("%s: Restore(%v) failed: %v", desc(), cs, rerr2)
